@@ -6,7 +6,8 @@ import warnings
 
 warnings.filterwarnings('ignore')
 import numpy as np  # noqa: E402
-from qce_circuit.structure.acquisition_indexing.kernel_repetition_code import RepetitionExperimentKernel  # noqa: E402
+from qce_circuit.structure.acquisition_indexing.kernel_repetition_code import RepetitionExperimentKernel, RepetitionIndexKernel  # noqa: E402
+from qce_circuit.structure.acquisition_indexing.kernel_calibration import QutritCalibrationIndexKernel  # noqa: E402
 from qce_circuit.structure.acquisition_indexing.intrf_stabilizer_index_kernel import StateKey  # noqa: E402
 from qce_circuit.connectivity.intrf_channel_identifier import QubitIDObj  # noqa: E402
 
@@ -16,29 +17,36 @@ def L(x):
     return [int(v) for v in a.reshape(-1)] if a.ndim <= 1 else [[int(v) for v in row] for row in a]
 
 
-def one(rounds, H, reps, ndata=2, nanc=1):
+def one(rounds, H, reps, ndata=2, nanc=1, K=1):
     data = [QubitIDObj('D%d' % (i + 1)) for i in range(ndata)]
     anc = [QubitIDObj('Z%d' % (i + 1)) for i in range(nanc)]
     outsider = QubitIDObj('X9')
-    k = RepetitionExperimentKernel(rounds=list(rounds), heralded_initialization=bool(H), qutrit_calibration_points=True,
+    k = RepetitionExperimentKernel(rounds=list(rounds), heralded_initialization=bool(H), qutrit_calibration_points=bool(K),
                                    involved_data_qubit_ids=data, involved_ancilla_qubit_ids=anc, experiment_repetitions=reps)
-    row = {'rounds': list(rounds), 'H': H, 'reps': reps, 'blocks': [], 'err': ''}
+    row = {'rounds': list(rounds), 'H': H, 'K': K, 'reps': reps, 'blocks': [], 'err': ''}
     ks = k.indexing_kernels
-    for kern in ks[:-1]:
+    cals = [x for x in ks if isinstance(x, QutritCalibrationIndexKernel)]
+    row['ncal'] = len(cals)
+    row['nother'] = len([x for x in ks if not isinstance(x, (QutritCalibrationIndexKernel, RepetitionIndexKernel))])
+    for kern in [x for x in ks if isinstance(x, RepetitionIndexKernel)]:
         row['blocks'].append({
             'start': int(kern.start_index), 'stop': int(kern.stop_index), 'length': int(kern.kernel_length),
             'her_d': L(kern.get_heralded_measurement_index(data[0])), 'her_a': L(kern.get_heralded_measurement_index(anc[0])),
             'stab_d': L(kern.get_ordered_stabilizer_measurement_indices(data[-1])), 'stab_a': L(kern.get_ordered_stabilizer_measurement_indices(anc[-1])),
             'fin_d': L(kern.get_final_measurement_index(data[-1])), 'fin_a': L(kern.get_final_measurement_index(anc[0])),
             'all_d': L(kern.contains(data[0])), 'all_a': L(kern.contains(anc[0])), 'all_x': L(kern.contains(outsider))})
-    cal = ks[-1]
     q = anc[0]
-    row['cal'] = {'start': int(cal.start_index), 'stop': int(cal.stop_index), 'length': int(cal.kernel_length),
-                  'her': [L(cal.get_heralded_state_0_measurement_index(q)), L(cal.get_heralded_state_1_measurement_index(q)), L(cal.get_heralded_state_2_measurement_index(q))],
-                  'proj': [L(cal.get_state_0_measurement_index(q)), L(cal.get_state_1_measurement_index(q)), L(cal.get_state_2_measurement_index(q))],
-                  'all': L(cal.contains(data[0])), 'all_x': L(cal.contains(outsider))}
+    row['cal'] = {}
+    row['cal_last'] = len(cals) == 1 and ks[-1] is cals[0]
+    if len(cals) == 1 and ks[-1] is cals[0]:
+        cal = cals[0]
+        row['cal'] = {'start': int(cal.start_index), 'stop': int(cal.stop_index), 'length': int(cal.kernel_length),
+                      'her': [L(cal.get_heralded_state_0_measurement_index(q)), L(cal.get_heralded_state_1_measurement_index(q)), L(cal.get_heralded_state_2_measurement_index(q))],
+                      'proj': [L(cal.get_state_0_measurement_index(q)), L(cal.get_state_1_measurement_index(q)), L(cal.get_state_2_measurement_index(q))],
+                      'all': L(cal.contains(data[0])), 'all_x': L(cal.contains(outsider))}
     row['cycle'] = int(k.kernel_cycle_length)
     row['exp_start'] = int(k.start_index)
+    row['exp_stop'] = int(k.stop_index)
     states = [StateKey.STATE_0, StateKey.STATE_1, StateKey.STATE_2]
     row['sl_cal_proj'] = [L(k.get_projected_calibration_acquisition_indices(q, s)) for s in states]
     row['sl_cal_her'] = [L(k.get_heralded_calibration_acquisition_indices(q, s)) for s in states]
@@ -49,13 +57,13 @@ def one(rounds, H, reps, ndata=2, nanc=1):
     row['sl_proj_d'] = [L(k.get_projected_cycle_acquisition_indices(data[0], r)) for r in rounds]
     try:
         row['estimate'] = int(RepetitionExperimentKernel.estimate_experiment_repetitions(
-            rounds=list(rounds), heralded_initialization=bool(H), qutrit_calibration_points=True, dataset_size=reps * row['cycle']))
+            rounds=list(rounds), heralded_initialization=bool(H), qutrit_calibration_points=bool(K), dataset_size=reps * row['cycle']))
     except AssertionError as e:
         row['estimate'] = -1
         row['err'] = 'estimate rejects reps*cycle'
     try:
         RepetitionExperimentKernel.estimate_experiment_repetitions(
-            rounds=list(rounds), heralded_initialization=bool(H), qutrit_calibration_points=True, dataset_size=reps * row['cycle'] + 1)
+            rounds=list(rounds), heralded_initialization=bool(H), qutrit_calibration_points=bool(K), dataset_size=reps * row['cycle'] + 1)
         row['estimate_off_rejected'] = False
     except AssertionError:
         row['estimate_off_rejected'] = True
@@ -67,15 +75,16 @@ def main(maxround, maxlen, maxreps, out, extra_seed):
     for n in range(1, maxlen + 1):
         for rounds in itertools.permutations(range(maxround + 1), n):
             for H in (0, 1):
-                for reps in range(1, maxreps + 1):
-                    rows.append(one(rounds, H, reps))
+                for K in (0, 1):
+                    for reps in range(1, maxreps + 1):
+                        rows.append(one(rounds, H, reps, K=K))
     # beyond TLC's universe: long lists / large counts (still judged by the same trace specification)
     import random
     rnd = random.Random(extra_seed)
     for _ in range(40):
         n = rnd.randint(1, 8)
         rounds = rnd.sample(range(0, 41), n)
-        rows.append(one(rounds, rnd.randint(0, 1), rnd.randint(1, 6), ndata=rnd.randint(1, 4), nanc=rnd.randint(1, 3)))
+        rows.append(one(rounds, rnd.randint(0, 1), rnd.randint(1, 6), ndata=rnd.randint(1, 4), nanc=rnd.randint(1, 3), K=rnd.randint(0, 1)))
     json.dump(rows, open(out, 'w'))
     print(len(rows))
 
